@@ -675,6 +675,12 @@ pub fn failure_cases(tier: &str) -> Vec<SchedCase>
     v.push(mk("missing/s/fresh/build", &healthy, vec![Op::RmLeaf { path: "s".into() }], b(None)));
     v.push(mk("missing/u/fresh/build", &healthy, vec![Op::RmLeaf { path: "u".into() }], b(None)));
     v.push(mk("missing/s+u/fresh/build", &healthy, vec![Op::RmLeaf { path: "s".into() }, Op::RmLeaf { path: "u".into() }], b(None)));
+    // a rule with three sources of which the first two are cancelled while the third is still at work
+    let f33 = scn("fanin3fail", vec![cat_rule("top", &["a", "b", "c"]), fail_rule("a", &["s"]), fail_rule("b", &["s"]), cat_rule("c", &["u"])], &["s", "u"]);
+    v.push(mk("fail/two-of-three-sources/fresh/build", &f33, vec![], b(None)));
+    let mut l3 = scn("leaves3", vec![cat_rule("top", &["x", "y", "z"]), cat_rule("d", &["top"])], &["x", "y", "z"]);
+    l3.ops.rm_leaf = true;
+    v.push(mk("missing/two-of-three-leaves/fresh/build", &l3, vec![Op::RmLeaf { path: "x".into() }, Op::RmLeaf { path: "y".into() }], b(None)));
     // failing rule after a successful build of the healthy graph is covered by hist S8 (rules switch)
     v.push(mk("missing/s/built/build", &healthy, vec![b(None), Op::RmLeaf { path: "s".into() }], b(None)));
     if tier == "thorough"
